@@ -61,6 +61,9 @@ def _convertCFF2ToCFF(cff, otFont):
         # FDSelect is optional in CFF2, but required in CFF.
         fdSelect = topDict.FDSelect = FDSelect()
         fdSelect.gidArray = [0] * len(charStrings.charStrings)
+    elif topDict.FDSelect.format == 4:
+        # FDSelect format 4 only exists in CFF2
+        topDict.FDSelect.format = 3
 
     defaults = buildDefaults(privateDictOperators)
     order = buildOrder(privateDictOperators)
